@@ -57,11 +57,12 @@ type decodeIn struct {
 }
 
 type input struct {
-	Class string    `json:"class"` // stanza | serror | sterror | decode
+	Class string    `json:"class"` // stanza | serror | sterror | decode | hist
 	St    *stanzaIn `json:"st,omitempty"`
 	Se    *serrIn   `json:"se,omitempty"`
 	Ste   *sterrIn  `json:"ste,omitempty"`
 	Dec   *decodeIn `json:"dec,omitempty"`
+	Hist  *histIn   `json:"hist,omitempty"`
 }
 
 // ---- observed values ----
@@ -289,6 +290,7 @@ var steConds = []string{
 type runner struct {
 	res *hx.Result
 	cf  hx.CaseFile
+	hcf hx.CaseFile // histories (case type hcase of C13/Heap.v)
 	r   *hx.Rand
 }
 
@@ -970,6 +972,10 @@ func (x *runner) run(in input) {
 		if in.Dec != nil {
 			x.runDecode(in)
 		}
+	case "hist":
+		if in.Hist != nil {
+			x.runHist(in)
+		}
 	}
 	x.res.Sample(in)
 }
@@ -979,6 +985,7 @@ func main() {
 	res := hx.NewResult("C13")
 	x := &runner{res: res, r: hx.NewRand(o.Seed)}
 	x.cf = hx.CaseFile{Name: "c13", Imports: imports, Ok: "case_ok", Type: "case"}
+	x.hcf = hx.CaseFile{Name: "c13h", Imports: himports, Ok: "hcase_ok", Type: "hcase"}
 
 	if o.Replay != "" {
 		b, err := os.ReadFile(o.Replay)
@@ -1010,7 +1017,13 @@ func main() {
 		for _, in := range corpus() {
 			x.run(in)
 		}
+		for _, in := range histCorpus() {
+			x.run(in)
+		}
 		for _, in := range exhaustive(x.r.Fork()) {
+			x.run(in)
+		}
+		for _, in := range histExhaustive() {
 			x.run(in)
 		}
 		n := 800
@@ -1024,13 +1037,22 @@ func main() {
 		for i := 0; i < n; i++ {
 			x.run(g.input())
 		}
+		// histories draw from their own stream (forked last, so the streams above are what they were)
+		gh := &gen{r: x.r.Fork()}
+		for i := 0; i < n/5; i++ {
+			x.run(gh.hist())
+		}
 	}
 	res.Rule = "inputs: corpus (minimised witnesses, RFC examples), exhaustive small scope (every kind x type constant x name space x presence of id/to/from/lang; " +
 		"every stanza condition x error type; every stream condition x payload x texts), seeded random values (ids, JIDs, language tags, multi-language texts incl. empty, " +
 		"XML-special, non-ASCII, control and invalid UTF-8 text, application payload forests, client/server/empty name spaces) and a malformed stream of documents for the decoders; " +
 		"per input: StartElement, New*, Wrap/Result/Error, TokenReader/WriteXML/xml.Marshal, encoder+strict re-parse, xml.Unmarshal, UnmarshalError, UnmarshalIQError; " +
+		"histories (class hist): constructor calls (StartElement, Wrap, Result, Error, stanza.Error.Wrap/TokenReader, stream.Error.TokenReader) interleaved with partial reads of the readers built so far " +
+		"- corpus witnesses, every ordered pair of the 13 constructors x 3 interleavings, random histories of 2-6 readers - each reader compared with one built from the same value and consumed at once; " +
 		"distinct = hash of the input; non-trivial = at least one optional field, text or payload present"
 	res.CaseFiles = append(res.CaseFiles, x.cf.Write(o.Out, 1500)...)
-	res.Extra["model_cases"] = x.cf.Len()
+	res.CaseFiles = append(res.CaseFiles, x.hcf.Write(o.Out, 1500)...)
+	res.Extra["model_cases"] = x.cf.Len() + x.hcf.Len()
+	res.Extra["history_cases"] = x.hcf.Len()
 	res.Write(o.Out)
 }
